@@ -328,10 +328,13 @@ def affected (cfg : Cfg) (o : Opts) (cut : ClusterId → Option Nat) (g : Cluste
   | none => false
   | some k => decide (k < (runCluster cfg o g.1 g.2).log.length)
 
-/-- The request under a cancellation schedule. The error returned by Go is the first one received,
-hence the error of a cluster that failed by itself (not `affected`): `Outcome.err` lists those. An
-empty list with failing clusters means the schedule is impossible (cancellation without a cause). -/
-def runCancel (cfg : Cfg) (o : Opts) (cut : ClusterId → Option Nat) : Run :=
+/-- The request under a cancellation schedule. `external = true`: the *caller's* context ended (client
+gone, request timeout) — then there need not be any failing cluster, and the 502 of a cluster reached
+by the cancellation can be the first error. `external = false`: only the collector's own `cancel()`
+after a first error. The error returned by Go is the first one received: that of a cluster that
+failed by itself (not `affected`), or — external only — the 502 of an affected one. An empty list
+with failing clusters means the schedule is impossible (internal cancellation without a cause). -/
+def runCancel (cfg : Cfg) (o : Opts) (cut : ClusterId → Option Nat) (external : Bool := false) : Run :=
   match plan cfg.localId cfg.maxItems o with
   | .split gs =>
     let rs := gs.map (fun g => (g.1, runClusterCut cfg o g.1 g.2 (cut g.1)))
@@ -340,7 +343,8 @@ def runCancel (cfg : Cfg) (o : Opts) (cut : ClusterId → Option Nat) : Run :=
       ⟨.ok (mergePages (rs.flatMap (fun r => r.2.pages))), log⟩
     else
       ⟨.err ((gs.filter (fun g => !affected cfg o cut g)).filterMap
-        (fun g => (runCluster cfg o g.1 g.2).stop.status?)), log⟩
+          (fun g => (runCluster cfg o g.1 g.2).stop.status?) ++
+        (if external then (gs.filter (fun g => affected cfg o cut g)).map (fun _ => 502) else [])), log⟩
   | _ => run cfg o
 
 /-! ### conn.go chooseBackend (single-object requests), for comparison with `backendFor` -/
